@@ -69,6 +69,7 @@ TUnsafe(id, x)  == [T0 EXCEPT !.k = "unsafe", !.id = id, !.xs = <<x>>]
 TSlice(id, xs)  == [T0 EXCEPT !.k = "slice", !.id = id, !.xs = xs]
 TMap(id, kvs)   == [T0 EXCEPT !.k = "map", !.id = id, !.xs = kvs]
 TStruct(id, xs, ro) == [T0 EXCEPT !.k = "struct", !.id = id, !.xs = xs, !.ro = ro]
+TRegStruct(id, xs) == [T0 EXCEPT !.k = "struct", !.id = id, !.xs = xs, !.ro = [i \in 1..Len(xs) |-> FALSE], !.caps = {"REG"}]   \* a struct type registered as safe
 TPtrTo(id, x)   == [T0 EXCEPT !.k = "ptrto", !.id = id, !.xs = <<x>>]
 TNilPtr(id)     == [T0 EXCEPT !.k = "nilptr", !.id = id]
 TRValue(id, x)  == [T0 EXCEPT !.k = "rvalue", !.id = id, !.xs = <<x>>]       \* reflect.ValueOf(x) passed as an operand
@@ -101,6 +102,16 @@ SPrint(ts)       == SOp("Print", <<>>, 0, <<>>, ts)
 SPrintf(f, ts)   == SOp("Printf", <<>>, 0, f, ts)
 SPanic(t)        == SOp("Panic", <<>>, 0, <<>>, <<t>>)
 SDiscover        == SOp("Discover", <<>>, 0, <<>>, <<>>)
+\* util.go JoinTo(w, delim, values) on a SafeWriter: n is the term id given to the delimiter (a RedactableString)
+SJoinTo(d, n, t) == SOp("JoinTo", d, n, <<>>, <<t>>)
+\* ... is these calls of w: a slice is printed element by element with the delimiter printed in between;
+\* any other operand, a nil one included, is printed as it is
+JoinOps(op) ==
+  LET t == op.ts[1]  dl == TRStr(op.n, op.b) IN
+  IF t.k \in {"slice", "tslice"}
+  THEN [i \in 1..(IF Len(t.xs) = 0 THEN 0 ELSE 2 * Len(t.xs) - 1) |->
+           IF i % 2 = 1 THEN SPrint(<<t.xs[(i + 1) \div 2]>>) ELSE SPrint(<<dl>>)]
+  ELSE <<SPrint(<<t>>)>>
 
 ---------------------------------------------------------------------------
 \* printer state
@@ -157,7 +168,8 @@ HasWid(fl)   == fl.widPresent
 
 IsNilIface(t)   == t.k = "nil"
 HasCap(t, c)    == t.k = "obj" /\ c \in t.caps
-IsRegistered(t) == HasCap(t, "REG") /\ ~HasCap(t, "NILP")     \* the registry holds T, a nil *T is another type
+\* the registry holds T (a nil *T is another type); structs can be registered too
+IsRegistered(t) == "REG" \in t.caps /\ "NILP" \notin t.caps
 \* implements SafeValue: marked objects and the Safe() wrapper struct itself
 HasSafeValue(t) == HasCap(t, "SV") \/ t.k \in {"safe", "sstr"}
 IsError(t)      == HasCap(t, "ER")
@@ -358,6 +370,7 @@ RunOp(ps, op, verb, a) ==
        [] op.o = "Printf"       -> PPPrintf(ps, op.f, op.ts)
        [] op.o = "Panic"        -> [ps EXCEPT !.exc = op.ts]
        [] op.o = "Discover"     -> ps
+       [] op.o = "JoinTo"       -> RunScript(ps, JoinOps(op), verb, a)
 
 RunScript(ps, ops, verb, a) ==
   IF Exc(ps) \/ ops = <<>> THEN ps
@@ -576,6 +589,7 @@ SBWriteOut(ps, r) ==      \* b.SetMode(PreRedactable); Fprint(&b.Buffer, ...) ->
   LET s == SetMode(ps, MR) IN
   IF Exc(r) THEN [s EXCEPT !.exc = r.exc, !.rt = r.rt, !.calls = r.calls]
   ELSE W([s EXCEPT !.rt = r.rt, !.calls = r.calls], BOut(r.bs))
+RECURSIVE SBRunOps(_, _)
 SBOp(ps, op) ==
   IF Exc(ps) THEN ps ELSE
   CASE op.o \in {"SafeString", "SafeBytes"}     -> W(SetMode(ps, MS), op.b)
@@ -590,7 +604,7 @@ SBOp(ps, op) ==
     [] op.o = "Print"                             -> SBWriteOut(ps, DoPrint(SBNested(ps), op.ts))
     [] op.o = "Printf"                            -> SBWriteOut(ps, DoPrintf(SBNested(ps), op.f, op.ts))
     [] op.o = "Panic"                             -> [ps EXCEPT !.exc = op.ts]
-RECURSIVE SBRunOps(_, _)
+    [] op.o = "JoinTo"                            -> SBRunOps(ps, JoinOps(op))
 SBRunOps(ps, ops) == IF ops = <<>> THEN ps ELSE SBRunOps(SBOp(ps, Head(ops)), Tail(ops))
 SBRun(ops) == SBRunOps(NewPS, ops)
 
